@@ -23,6 +23,8 @@ func checkC11(w *World, r *Report, tier string) propMeta {
 	c11R3(w, r)
 	c11R4(w, r)
 	c11R6(w, r)
+	r.rule("C11.R5", "UpdateMinMaxIndex, which mergeMinMaxIndexes folds the members' ranges with, returns (min,max) under every ordering of its inputs (shared with C04.R2)", 1)
+	updateMinMaxTable(w, r, "C11.R5")
 	// R5 = C13.R2–R3
 	return propMeta{
 		explanation: "Content preservation of merging as per-iteration path rules and value-identity checks: (R1) in mergeDataBlocks' scan loop every row returned by scanner.Next is indexed, written (length prefix derived from len(row), then the row) and counted before the loop's back edge, and the loop's only other exits are error returns; (R2) every block index of a group is loaded and scanned to the end, every merge group goes to exactly one of copyDataBlock/mergeDataBlocks, every block of every candidate file is collected; (R3) a merged block's PartitionID is the key its blocks were grouped under and its MinMaxIndexes is the running union over all group members; (R4) copyDataBlock writes exactly the bytes it read at [RowDataOffset, +RowDataSize) after decodeBlockRowData verified them, and the new metadata is a struct copy in which only RowDataOffset, BloomFilterOffset and BloomFilterSize are overwritten; (R5) sources are deleted only for committed groups (C13.R2–R3).",
